@@ -393,9 +393,14 @@ func verifC07() {
 	if !run.Quick() {
 		bound = 2
 	}
+	specs := c07Specs()
 	for i, s := range scs {
 		names[i] = s.Name
-		jobs = append(jobs, sched.Job{Scenario: i, Bound: bound, FreeCost: 1})
+		b := bound
+		if len(specs[i].script) >= 3 {
+			b = 1 // thorough: scripts of 3 events are explored to 1 deviation, shorter ones to 2 (the full product does not fit the budget)
+		}
+		jobs = append(jobs, sched.Job{Scenario: i, Bound: b, FreeCost: 1})
 	}
 	res, err := sched.RunSharded(names, jobs, 1, 16, run.Deadline, 10*time.Second)
 	if err != nil {
@@ -466,6 +471,7 @@ func verifC07() {
 	run.Coverage["schedules"] = execs
 	run.Coverage["script_depth"] = c07Depth()
 	run.Coverage["deviation_bound_completed"] = bound
+	run.Coverage["deviation_bound_for_scripts_of_3_events"] = 1
 	run.Coverage["blocked_infeasible"] = stuck
 	run.Coverage["diverged_replays"] = diverged
 	run.Coverage["samples"] = samples
